@@ -18,6 +18,7 @@ RULE = ('five Hypothesis sub-checks.  computechi2: A 5-60 x 1-6 (well conditione
         'non-negative mode keeps a,g >= 0.  pca_solve: acoeff == ivar-weighted projection on the returned eigenspectra, eigenvalues '
         'non-increasing, usemask == number of good spectra per pixel.  Non-trivial: >=1 zero weight and K >= 2 (HMF), >= 3 parameters (computechi2).')
 RULE += '  Also: data matrices with 3-8 observations for pcomp, pixels masked in every spectrum for pca_solve, pixels with fewer good spectra than components when epsilon > 0.'
+RULE += ' Round 5: second solve() on the same HMF object; 257-300 spectra for pca_solve.'
 ASSUMPTIONS = ['computechi2 is given a 2-D full-rank design matrix with cond(A sqrt(W)) < 3e4; tolerance 10 x max(1e-9, 1e-13 cond^2) relative (it inverts A^T W A)',
                'pcomp: the derived-variables relation is asserted for standardize=False (with standardize=True pydl adds the centred data back, mirroring the IDL routine; not covered by the statement as written)',
                'HMF / pca_solve spectra are non-degenerate (distinct, non-constant spectra; kmeans returns K centroids); no all-zero ivar row; all-zero ivar columns for pca_solve only; columns with fewer good spectra than components for HMF steps only with epsilon > 0',
